@@ -3,12 +3,14 @@ from .. import oracles
 from .refsem import suite
 
 PROPERTY = "C08"
-LEAN_MODULES = ["DAVerif.Props.C08", "DAVerif.Props.C01core", "DAVerif.Props.C04merge", "DAVerif.Props.C01joins", "DAVerif.Props.C03"]   # C26_reachable_cols is reached through C08's import of Props.C26
+LEAN_MODULES = ["DAVerif.Props.C08", "DAVerif.Props.C01core", "DAVerif.Props.C04merge", "DAVerif.Props.C01joins", "DAVerif.Props.C03", "DAVerif.Props.C01all", "DAVerif.Props.C16nested"]   # C26_reachable_cols is reached through C08's import of Props.C26
 THEOREMS = ["DAVerif." + t for t in (
     "C08_cols", "C08_rows_wf", "C08_cols_nodup", "C08_cols_set", "C08_select_order", "sem_ok_of_tables", "C08_empty",
     "C26_reachable_cols",
     # the SQL generator (modelled engine) and the Polars executor return the declared columns too
-    "C08_sql_cols", "Sql.C08_sql_cols_merges", "C08_sql_cols_joins", "C08_rename_twice_necessary", "C03_polars_sound_strong")]
+    "C08_sql_cols", "Sql.C08_sql_cols_merges", "C08_sql_cols_joins", "C08_rename_twice_necessary", "C03_polars_sound_strong",
+    # every dialect configuration (merges on/off), and joins nested anywhere in the pipeline
+    "C08_sql_cols_all", "C08_sql_cols_nested")]
 ASSUMPTIONS = [
     "the relational model `sem` (lean/DAVerif/Sem/Eval.lean) is the Pandas executor: tied by suite k4_sem on every run "
     "(column set always, column order after a final select_columns)",
@@ -17,7 +19,7 @@ ASSUMPTIONS = [
     "pandas.merge leaks a `<c>_tmp_right_col` scratch column (known finding C08-pandas-join-key-also-right-column)",
     "SQL and Polars backends: the SQL-side theorems are in DAVerif.Sql (other modules); here they are judged by the oracle",
 ]
-NOT_PROVEN = ["SQLite / PostgreSQL-text / Polars column sets: kernel-checked for the modelled SQL generator + engine (C08_sql_cols, _merges, _joins) and the Polars executor model (C03_polars_sound_strong); their real executions are the oracle's",
+NOT_PROVEN = ["SQLite / PostgreSQL-text / Polars column sets: kernel-checked for the modelled SQL generator + engine (C08_sql_cols, _merges, _joins, _all, _nested) and the Polars executor model (C03_polars_sound_strong); their real executions are the oracle's",
               "column ORDER other than after select_columns (not claimed by the property, see DESIGN §6 C08)"]
 LEVEL_TEXT = ("Kernel-checked for every pipeline, interpretation, configuration (Pandas / reference) and environment: a "
               "returned table has exactly the declared column list, every row has exactly those columns (no scratch "
